@@ -24,12 +24,38 @@ fn check(hc: &HCase, st: &mut Stats) -> CheckResult {
     let mut own_back: Vec<Option<usize>> = vec![None; case.ops.len()];
     let mut foreign_existing: Vec<bool> = vec![false; case.ops.len()];
     let mut before: Option<ApiDump> = None;
+    let mut abandoned = false;
     let (full, hfull) = run_trace(case, hc.backend, hc.via, true, true, |h, idx, op, after| {
         let Some(c) = op.client() else { return Ok(()) };
         let cid = h.clients[c as usize % h.clients.len()];
         let others: Vec<Uuid> = h.clients.iter().copied().filter(|x| *x != cid).collect();
         if others.is_empty() {
             return Ok(());
+        }
+        if !after && h.drv.via == Via::Http && (case.salt as usize + idx) % 3 == 0 {
+            // other clients' *refused* requests are part of "other clients' requests" too: a
+            // broken transfer, an empty body, a wrong media type by another client just before
+            let o = others[(case.salt as usize / 3 + idx) % others.len()];
+            let body = bytes::Bytes::from_static(b"noise-noise-noise");
+            let mut req = match (case.salt as usize / 7 + idx) % 4 {
+                0 => crate::driver::req_add_version(o, Uuid::nil(), vec![body.clone(), body.clone()]),
+                1 => crate::driver::req_add_snapshot(o, Uuid::nil(), vec![body.clone(), body.clone()]),
+                2 => crate::driver::req_add_version(o, Uuid::nil(), vec![]),
+                _ => {
+                    let mut r = crate::driver::req_add_version(o, Uuid::nil(), vec![body.clone()]);
+                    r.headers.retain(|(n, _)| !n.eq_ignore_ascii_case("content-type"));
+                    r
+                }
+            };
+            if (case.salt as usize / 7 + idx) % 4 < 2 {
+                req.headers.push((crate::driver::BREAK_PSEUDO_HEADER.into(), format!("1:{}", idx % 5).into_bytes()));
+            }
+            let r = h.drv.http_call(req);
+            if (200..300).contains(&r.status) {
+                // not refused (C15's business): the two runs are no longer comparable
+                abandoned = true;
+            }
+            st.label("c09:refused-request-of-another-client-interleaved");
         }
         if !after {
             // remember what the id argument resolves to in the full run
@@ -65,6 +91,14 @@ fn check(hc: &HCase, st: &mut Stats) -> CheckResult {
         }
         Ok(())
     })?;
+
+    if abandoned {
+        return Ok(());
+    }
+    // a well-formed request is never answered with a server error, whoever else is busy
+    if let Some((i, l)) = full.iter().enumerate().find(|(_, l)| l.contains(":Error(")) {
+        return Err(Fail::Violation(format!("op {i} ({:?}) was answered {l} with other clients' requests (refused ones included) interleaved", case.ops[i])));
+    }
 
     // project onto each client and re-run alone
     for c in 0..case.nclients {
@@ -143,6 +177,11 @@ pub fn run(tier: Tier, seed: u64) -> Report {
     if rep.failed() {
         return rep;
     }
+    // two clients whose requests overlap in time: each is answered as if it were alone
+    crate::props::conc::two_clients_subrun("C09", &mut rep, tier);
+    if rep.failed() {
+        return rep;
+    }
     let mut p = GenParams::default();
     p.max_clients = 4;
     p.empty_permille = 30;
@@ -192,6 +231,7 @@ impl MinClients for proptest::strategy::BoxedStrategy<HCase> {
 pub fn replay(kind: &str, case_json: &Value, st: &mut Stats) -> CheckResult {
     let _ = case::N_CLASSES;
     match kind {
+        "two-clients" => crate::props::conc::two_clients_replay(case_json, st),
         "history" => {
             let hc: HCase = serde_json::from_value(case_json.clone()).map_err(|e| Fail::Inconclusive(format!("bad replay file: {e}")))?;
             check(&hc, st)
